@@ -268,7 +268,7 @@ def lexically_precedes_dominating(fn, guard, site):
 
 
 def decode_fmt_template(hexstr):
-    """Decode the fmt::Arguments byte template into a list of ('lit', str) / ('arg', index|None, flags) pieces."""
+    """Decode the fmt::Arguments byte template into a list of ('lit', str) / ('arg', index|None, flags, {width, precision}|None) pieces."""
     b = bytes.fromhex(hexstr)
     out = []
     i = 0
@@ -290,9 +290,12 @@ def decode_fmt_template(hexstr):
             if c & 1:
                 flags = int.from_bytes(b[i:i + 4], 'little')
                 i += 4
+            width = prec = None
             if c & 2:
+                width = b[i] | (b[i + 1] << 8)
                 i += 2
             if c & 4:
+                prec = b[i] | (b[i + 1] << 8)
                 i += 2
             idx = None
             if c & 8:
@@ -301,7 +304,7 @@ def decode_fmt_template(hexstr):
             if idx is None:
                 idx = nxt
             nxt = idx + 1
-            out.append(('arg', idx, flags))
+            out.append(('arg', idx, flags, {'width': width, 'precision': prec} if (width is not None or prec is not None) else None))
         else:
             out.append(('?', c))
             i += 1
